@@ -208,7 +208,9 @@ func (c *conn) send(ctx context.Context, msg *kmip.RequestMessage) error {
 		return err
 	}
 	tx := c.tx.Load().(chan txMsg)
-	errCh := make(chan error)
+	// Buffered so that writeloop can always report the outcome, even when this
+	// call has already returned because a context was cancelled.
+	errCh := make(chan error, 1)
 	select {
 	case tx <- txMsg{msg: msg, err: errCh}:
 		select {
